@@ -314,6 +314,33 @@ def check_fixed_render(res, model, rng, req=None, lines=None):
     ol.cleanup_scratch()
 
 
+def check_selection(res, rng):
+    """a solver / device / method selection the tool does not support is refused or kept as given - never silently replaced"""
+    triples = [("cvode", "cpu", "cusparse"), ("cvode", "gpu", "sparse"), ("cvode", "gpu", "dense"), ("cvode", "cpu", "Sparse"),
+               ("odeint", "cpu", "dense"), ("odeint", "cpu", "sparse"), ("cvode", "cpu", "rosenbrock4"),
+               # supported selections as controls
+               ("cvode", "cpu", "sparse"), ("cvode", "cpu", "dense"), ("cvode", "gpu", "cusparse"), ("odeint", "cpu", "rosenbrock4")]
+    for solver, device, method in triples:
+        req = replaced_elements_request()
+        req = dict(req, solver=solver, device=device, method=method)
+        d = ol.scratch_dir()
+        o, rms, oms = opt_strings(req, rng)
+        (d / req["files"][0]).write_text("\n".join(UCL_LINES) + "\n")
+        rc, out, err = run_init(d, o, rms, oms)
+        case = {"kind": "c20-selection", "solver": solver, "device": device, "method": method}
+        if rc == 0 and (d / "naunet_config.toml").exists():
+            odesolver = tomlkit.loads((d / "naunet_config.toml").read_text()).get("ODEsolver", {})
+            got = (odesolver.get("solver"), odesolver.get("device"), odesolver.get("method"))
+            if got != (solver, device, method):
+                res.violation("oracle", f"`naunet init --solver={solver} --device={device} --method={method}` is accepted but the configuration file "
+                                        f"holds solver/device/method {got}: the selection was silently replaced", case)
+            res.count("selection accepted")
+        else:
+            res.count("selection refused")
+        res.case(("c20-selection", solver, device, method), nontrivial=True)
+        ol.cleanup_scratch()
+
+
 def findings(res, model):
     """the two documented separator behaviours, replayed on the implementation"""
     for kind, key, val, want in (("null", "name", "annulled", "annulled"), ("colon", None, "3:Tgas > 100.0 ? 1.0e-9 : 0.0", "Tgas > 100.0 ? 1.0e-9 : 0.0")):
@@ -400,6 +427,7 @@ def run(res, info):
     check_fixed_render(res, model, rng, yield_only_request(), UCL_LINES + UCL_EXTRA)
     for i in range(5 if res.tier == "quick" else 60):
         check_export(res, rng, i)
+    check_selection(res, rng)
     findings(res, model)
     if model:
         model.close()
